@@ -279,7 +279,39 @@ fn sequence_case(g: &mut Gen, cfg: &PicCfg) -> Verdict {
     let mut changes = 0;
     let mut trace: Vec<Value> = Vec::new();
     let mut labels: Labels = Vec::new();
+    let mut prev_tr: Option<u8> = None;
     for step in 0..n {
+        if like.is_some() && g.chance(1, 5) {
+            // a picture that is rejected after its header was accepted - often one announcing another
+            // size: it must leave nothing behind (the next pictures are judged as if it never came)
+            use crate::hist::*;
+            let mut l = like.clone().unwrap();
+            let other_size = g.bool();
+            if other_size {
+                if let Some((w, h)) = l.size.dims() {
+                    l.size = match mode {
+                        Mode::Sorenson => Size::Custom16(h.clamp(1, 65535) as u16, (w + 16).clamp(1, 65535) as u16),
+                        Mode::Standard => Size::StdCustom(((h + 3) / 4 * 4).clamp(4, 2048) as u16, ((w + 3) / 4 * 4 + 4).clamp(4, 1152) as u16),
+                    };
+                }
+            }
+            let kind = *g.pick(&[BadKind::InvalidIntraDc, BadKind::EscapeLevelZero, BadKind::InvalidShortCode, BadKind::TruncatedInBlock]);
+            // (another size is announced by an intra carrier: a predicted carrier may leave its
+            // size unstated, and would then be parsed with the current one)
+            let inter = g.bool() && !other_size;
+            let tr = g.byte();
+            let bytes = bad_picture(g, cfg, &l, kind, inter, tr);
+            let before = last_digest(&st);
+            match decode_bytes(&mut st, &bytes) {
+                Outcome::Err(_) => {}
+                o => return Verdict::fail(format!("picture {} of the sequence must be rejected ({}), gave {}", step, kind.label(), o.short())),
+            }
+            if last_digest(&st) != before {
+                return Verdict::fail(format!("picture {} of the sequence was rejected ({}) but changed the most recent picture", step, kind.label()));
+            }
+            labels.push("sequence has a rejected picture");
+            continue;
+        }
         let pic = match (&like, g.weighted(&[2, 3])) {
             (Some(l), 1) => {
                 let t = if mode == Mode::Sorenson && g.chance(1, 3) { PicType::D } else { PicType::P };
@@ -326,7 +358,19 @@ fn sequence_case(g: &mut Gen, cfg: &PicCfg) -> Verdict {
                     }
                 }
                 let mut i = gen_intra_pic_with(g, cfg, mode, version, size);
-                if like.is_some() && g.chance(1, 3) {
+                if like.is_some() && mode == Mode::Sorenson && g.chance(1, 4) {
+                    // a disposable picture made of intra macroblocks only, of whatever size: it is
+                    // shown, but the reference (and the size predicted pictures must have) stays
+                    i.hdr.ptype = PicType::D;
+                    if g.bool() {
+                        if let Some(t) = prev_tr {
+                            i.hdr.tr = t;
+                        }
+                    }
+                    size = like.as_ref().unwrap().size;
+                    labels.push("sequence has an all-intra disposable picture (any size)");
+                    i
+                } else if like.is_some() && g.chance(1, 3) {
                     // a predicted picture made of intra macroblocks only: it needs nothing from its
                     // reference and may therefore have another size; it becomes the new reference
                     i.hdr.ptype = PicType::P;
@@ -334,11 +378,15 @@ fn sequence_case(g: &mut Gen, cfg: &PicCfg) -> Verdict {
                         i.hdr.plus = PlusForm::Full;
                     }
                     labels.push("sequence has an all-intra predicted picture (may change the size)");
+                    like = Some(i.hdr.clone());
+                    i
+                } else {
+                    like = Some(i.hdr.clone());
+                    i
                 }
-                like = Some(i.hdr.clone());
-                i
             }
         };
+        prev_tr = Some(pic.hdr.tr);
         let (w, h) = pic.hdr.dims().unwrap();
         let bytes = encode_pic(&pic);
         key = key.rotate_left(5) ^ fnv64(&bytes);
